@@ -154,6 +154,22 @@ def build(case, provider, alarm_ack, comp_ack, snooze):
             ev.X_MOZ_SNOOZE_TIME = snooze
         if comp_ack is None and snooze is None:
             ev.add(case.get("moz_marker", "X-MOZ-GENERATION"), "1")
+    if case.get("refused"):
+        # history: a second component is offered to the same Alarms object and refused ("You can only set one parent");
+        # the caller catches that - the object still belongs to the first component and answers for it
+        A = Alarms(ev)
+        other = cls()
+        if case["refused"] != "incomplete":
+            other.start = datetime(2031, 1, 1, 12, 0, tzinfo=UTC)
+        other.DTSTAMP = datetime(2999, 1, 1, tzinfo=UTC) if case["refused"] == "acknowledged-far-later" else datetime(1999, 1, 1, tzinfo=UTC)
+        if case["refused"] == "thunderbird":
+            other.X_MOZ_LASTACK = datetime(2999, 1, 1, tzinfo=UTC)
+            other.X_MOZ_SNOOZE_TIME = datetime(2999, 6, 1, tzinfo=UTC)
+        try:
+            A.add_component(other)
+        except ValueError:
+            return A
+        raise AssertionError("harness: a second parent was accepted")
     return ev.alarms
 
 
@@ -274,6 +290,30 @@ def judge_fold_ack(case, provider):
     A = Alarms()
     A.add_alarm(al)
     fails = []
+    if case["what"] == "zoned-trigger":
+        # the trigger itself is a zoned time inside the repeated hour (first occurrence of the later wall time); the snooze is the
+        # second occurrence of the earlier wall time: a later instant with an earlier wall clock reading
+        later_wall = datetime(*wall) + timedelta(minutes=10)
+        start = later_wall.replace(tzinfo=tz, fold=0)
+        if provider == "pytz" and case["src"] == "zoneinfo":
+            import pytz
+            start = pytz.timezone(zone).localize(later_wall, is_dst=True)
+        al.TRIGGER = timedelta(0)
+        A = Alarms()
+        A.add_alarm(al)
+        A.set_start(start)
+        A.acknowledge_until(inst_[0] - timedelta(hours=5))
+        t_inst = start.astimezone(UTC)
+        for step, f in enumerate(case["order"]):
+            snz = {"same-zone": occ[f], "utc": inst_[f], "other-zone": inst_[f].astimezone(zoneinfo.ZoneInfo("Asia/Tokyo"))}[case.get("snooze_as", "utc")]
+            A.snooze_until(snz)
+            want = inst_[f] if inst_[f] > t_inst else t_inst
+            got = A.times[0].trigger
+            if got.astimezone(UTC) != want:
+                fails.append(Failure("C15.snooze-trigger", "snooze-later-than-zoned-trigger-in-repeated-hour-not-reported", f"step {step} fold={f} snooze={snz!r} start={start!r}: {got!r} expected {want!r}"))
+            if not A.active:
+                fails.append(Failure("C15.active-iff", "active-differs-for-fold-occurrence", f"step {step}: snoozed after the acknowledgement but not active"))
+        return fails[:3]
     for step, f in enumerate(case["order"]):
         if case["what"] == "ack":
             A.acknowledge_until(occ[f])
@@ -385,6 +425,8 @@ def info(case):
         classes.append("snoozed")
     if case.get("local_tz"):
         classes.append("local-tz-set")
+    if case.get("refused") and case["mode"] in ("dtstamp", "moz"):
+        classes.append("history:second-component-refused")
     return {"nontrivial": present >= 2, "classes": classes}
 
 
@@ -410,7 +452,8 @@ def _rows():
                                 rows.append({"provider": provider, "tkind": k, "mode": mode, "alarm_ack": a, "comp_ack": c, "snooze": s,
                                              "local_tz": local, "decoy_dtstamp": bool((a or 0) % 2 == 0) and mode.startswith("moz"),
                                              "local_src": ["str", "zoneinfo", "pytz"][i % 3], "prime": [None, "plain", "snooze-last", "ack-last"][(i // 3) % 4],
-                                             "moz_marker": MARKERS[(i // 5) % len(MARKERS)]})
+                                             "moz_marker": MARKERS[(i // 5) % len(MARKERS)],
+                                             "refused": [None, None, "acknowledged-far-later", "acknowledged-long-ago", "thunderbird", "incomplete"][(i // 7) % 6] if mode in ("dtstamp", "moz") else None})
     return rows
 
 
@@ -423,7 +466,8 @@ def _hyp():
         "alarm_ack": _off, "comp_ack": _off, "snooze": _off, "local_tz": st.booleans(), "decoy_dtstamp": st.booleans(),
         "local_src": st.sampled_from(["str", "zoneinfo", "pytz"]), "prime": st.sampled_from([None, "plain", "snooze-last", "ack-last"]),
         "moz_marker": st.sampled_from(MARKERS),
-        "comp": st.sampled_from(["Event", "Todo"]), "later_by": st.integers(1, 10 ** 6)})
+        "comp": st.sampled_from(["Event", "Todo"]), "later_by": st.integers(1, 10 ** 6),
+        "refused": st.sampled_from([None, None, "acknowledged-far-later", "acknowledged-long-ago", "thunderbird", "incomplete"])})
 
 
 def _multi():
@@ -447,7 +491,10 @@ def streams(tier):
 def _fold_rows():
     return [{"kind": "fold-ack", "provider": p, "zone": z, "src": src, "what": w, "order": o}
             for p in ("zoneinfo", "pytz") for z in FOLDS for src in ("zoneinfo", "dateutil") for w in ("ack", "snooze")
-            for o in ([0, 1], [1, 0], [1], [0], [0, 1, 0])]
+            for o in ([0, 1], [1, 0], [1], [0], [0, 1, 0])] + \
+           [{"kind": "fold-ack", "provider": p, "zone": z, "src": src, "what": "zoned-trigger", "order": o, "snooze_as": sa}
+            for p in ("zoneinfo", "pytz") for z in FOLDS for src in ("zoneinfo", "dateutil") for sa in ("same-zone", "utc", "other-zone")
+            for o in ([1], [0], [0, 1], [1, 0])]
 
 
 LEVEL_TEXT = ("The finite decision table of all orderings (including equality) of the four instants, each possibly absent, across "
